@@ -119,8 +119,10 @@ class Repo:
                             continue
                         with open(path, "r", encoding="utf-8") as fh:
                             src = fh.read()
-                    from .specialise import specialise
-                    tree0, specialised = specialise(ast.parse(src, filename=path), rel, self._used_kws, self._max_pos, self._spec_ok)
+                    from .specialise import specialise, inline_new_constants
+                    tree00, new_consts = inline_new_constants(ast.parse(src, filename=path), rel)
+                    tree0, specialised = specialise(tree00, rel, self._used_kws, self._max_pos, self._spec_ok)
+                    specialised = list(specialised) + [("<module>", c_, "named constant read as its literal") for c_ in new_consts]
                     tree = normalise(tree0, externs.get(rel))
                     tree, inlined = inline_new_helpers(tree, rel)
                     if inlined:
